@@ -4,7 +4,7 @@ from m4check import run_property
 
 def run(tier, seed):
     return run_property(
-        "C11", tier, seed, ["C11.v"], ["props/C11.vo"],
+        "C11", tier, seed, ["C11.v", "M4link.v"], ["props/C11.vo", "props/M4link.vo"],
         profile={"deploy": 8, "deploy_fail": 2, "remove": 1, "restart": 1, "flap": 3, "rollout_deploy": 5, "rollout_set": 6,
                  "rollout_stop": 1, "pause": 4, "stop": 4, "resume": 4, "rollout_template": True},
         monitor="c11_ok h1 h2 k", n_quick=24, n_thorough=400, pair_restart=True, len_range=(3, 12))
